@@ -189,3 +189,52 @@ def run(ctx):
         except AssertionError as e:
             ctx.ob(key + '/paths', False, 'path structure: the analysed function has the expected (branch-free / enumerated) shape', w, 'analysable', str(e))
     ctx.floor('roots analysed', done, len(roots))
+    mint_rule(ctx)
+
+
+def mint_rule(ctx):
+    """optional `mint` conversions keep every element in its place (vectors, points, quaternion, row- and column-matrices for both layouts)"""
+    roots = []; meta = {}
+
+    def add(name, code, **m):
+        roots.append(Root(name, code, max_paths=4)); meta[name] = m
+    XY = 'xyzw'
+    for n in (2, 3, 4):
+        for mt in (['Vector%d' % n] + (['Point%d' % n] if n < 4 else [])):
+            add('r_mint_from_%s' % mt, 'pub fn r_mint_from_%s(v: mint::%s<f32>) -> Vec%d<f32> { Vec%d::from(v) }' % (mt, mt, n, n), kind='v', n=n)
+            add('r_mint_into_%s' % mt, 'pub fn r_mint_into_%s(v: Vec%d<f32>) -> mint::%s<f32> { v.into() }' % (mt, n, mt), kind='v', n=n)
+        for L in ('Rows', 'Cols'):
+            for mm, rowwise in (('RowMatrix%d' % n, True), ('ColumnMatrix%d' % n, False)):
+                add('r_mint_from_%s_%s%d' % (mm, L, n), 'pub fn r_mint_from_%s_%s%d(m: mint::%s<f32>) -> %s%d<f32> { %s%d::from(m) }' % (mm, L, n, mm, L, n, L, n), kind='mfrom', n=n, l=L, rowwise=rowwise)
+                add('r_mint_into_%s_%s%d' % (mm, L, n), 'pub fn r_mint_into_%s_%s%d(m: %s%d<f32>) -> mint::%s<f32> { m.into() }' % (mm, L, n, L, n, mm), kind='minto', n=n, l=L, rowwise=rowwise)
+    add('r_mint_from_quat', 'pub fn r_mint_from_quat(q: mint::Quaternion<f32>) -> Quaternion<f32> { Quaternion::from(q) }', kind='qfrom', n=4)
+    add('r_mint_into_quat', 'pub fn r_mint_into_quat(q: Quaternion<f32>) -> mint::Quaternion<f32> { q.into() }', kind='qinto', n=4)
+    sc = ctx.scan(roots, ['std', 'mint'], extra_deps='mint = "0.5"', extra_prelude='extern crate mint;\n')
+    if sc.compile_error: return
+    done = 0
+    for r in roots:
+        rs = sc.get(r.name); m = meta[r.name]
+        if rs is None or not rs.ok: continue
+        done += 1
+        key = 'c20/' + r.name[2:]; w = r.code; n = m['n']; k = m['kind']
+        try:
+            p = rs.only()
+            if k == 'v':
+                vec_eq(ctx, key, p.ret, [sym('a0.' + XY[i]) for i in range(n)], 'perm: mint vector/point conversion keeps every component', w)
+            elif k == 'mfrom':
+                # element (i,j) of the abstract matrix comes from mint row i / component j (row matrix) or mint column j / component i (column matrix)
+                E = [[sym('a0.%s.%s' % ((XY[i], XY[j]) if m['rowwise'] else (XY[j], XY[i]))) for j in range(n)] for i in range(n)]
+                grid_eq(ctx, key, mgrid(p.ret, m['l'], n), E, 'perm: element (i,j) = component j of mint row i (RowMatrix) / component i of mint column j (ColumnMatrix), for either storage layout', w)
+            elif k == 'minto':
+                A = msyms('a0', m['l'], n)
+                got = leaves(p.ret)
+                E = [A[a][b] if m['rowwise'] else A[b][a] for a in range(n) for b in range(n)]
+                vec_eq(ctx, key, got, E, 'perm: mint row i / column j lists row i / column j of the abstract matrix, for either storage layout', w)
+            elif k == 'qfrom':
+                vec_eq(ctx, key, p.ret, [sym('a0.v.x'), sym('a0.v.y'), sym('a0.v.z'), sym('a0.s')], 'perm: mint quaternion (vector part v, scalar s) -> (x, y, z, w)', w)
+            elif k == 'qinto':
+                got = [str(x) for x in leaves(p.ret)]
+                ctx.ob(key, sorted(got) == sorted(['a0.x', 'a0.y', 'a0.z', 'a0.w']) and got.index('a0.w') in (0, 3), 'perm: quaternion -> mint quaternion keeps the vector part in order and w as the scalar', w, 'v=(x,y,z), s=w', got)
+        except AssertionError as e:
+            ctx.ob(key + '/paths', False, 'branch-free conversion', w, 'one path', str(e))
+    ctx.floor('mint conversion roots analysed', done, len(roots))
